@@ -11,7 +11,9 @@ NOTE_COMMON = ("Trusted: Lean 4.33 kernel; axioms ⊆ {propext, Classical.choice
 CLAIMED = {
  "C07": dict(
    text=("Lean theorems about a model of RegionCreator and of the escaper: generated region ids r0, r1, ... are pairwise distinct and never equal the default "
-         "region id 'bottom' (region_ids_distinct, via Nat.repr injectivity), every id assigned to an element is the default region or the id of a region "
+         "region id 'bottom' (region_ids_distinct, via Nat.repr injectivity); the ids actually handed out skip every id a style of the caption set uses, are "
+         "pairwise distinct, and the default region's id is adapted until it is free as well (nextFree_free, fresh_ids_spec, region_map_ids, "
+         "default_region_id_free - the skipping loops are bounded by a pigeonhole argument; the id supply is tied to RegionCreator by correspondence); every id assigned to an element is the default region or the id of a region "
          "created for a layout of the document (region_refs_resolve), after cleanup every defined region is referenced (regions_all_referenced), escaped text "
          "contains no '<' or '>' so content cannot open or close markup (escape_content_wf); default ids regenerated and pinned. Execution: sets returned by "
          "every reader (incl. SCC programs) and API-built sets with XML metacharacters in texts, style values, class names and language codes, written by the "
@@ -121,11 +123,12 @@ CLAIMED = {
    text=("Lean theorems: splitting a formatted instruction list into captions keeps every character exactly once and in order (toCaps_conserves_text), retiming "
          "(correct_last_timing / end back-filling) changes times only (setEnd_preserves_nodes, correctLast_only_times), _format_italics keeps the visible characters "
          "pass by pass, create_and_store appends exactly the buffer's visible characters to the stash (store_conserves_text) and the roll-up flush moves them "
-         "there (rollUp_conserves_text). The full roll-up / paint-on behaviour "
+         "there (rollUp_conserves_text); any sequence of character words and carriage returns extends the held text by exactly the characters sent "
+         "(rollup_stream_conserves, induction over the model's word function). The full roll-up / paint-on behaviour "
          "(mode switches, CR, RDC, implicit flush) is in the executable reader model, compared with the implementation and with the conservation / ordering / "
          "contiguity oracle on random programs (depths 2-4, row addresses, doubling, drop/non-drop, gaps)."),
    ref="§3 C16", technique="Lean 4 proof of the conservation lemmas + state-machine correspondence + conservation/contiguity oracle",
-   note=NOTE_COMMON + "Conservation is proved for the italics normalisation (every pass), for create_and_store with all its retiming branches (store_conserves_text) and for the roll-up flush (rollUp_conserves_text); the induction over a whole command stream (character words append to the buffer, other commands leave text alone) is checked by execution only; simulate_roll_up=True is outside the model."),
+   note=NOTE_COMMON + "Conservation is proved for the italics normalisation (every pass), for create_and_store with all its retiming branches (store_conserves_text) and for the roll-up flush (rollUp_conserves_text); over the reader's real `word` function this is lifted to any sequence of basic-character words and carriage returns from any state (rollup_stream_conserves); preambles, mid-row codes, mode switches, special/extended characters and the time bookkeeping inside such streams are covered by execution only; simulate_roll_up=True is outside the model."),
 
  "C03": dict(
    text=("Lean theorems for every string: decoding saxutils-escaped text with the predefined XML references returns the string (unescape_escape / "
@@ -164,13 +167,13 @@ CLAIMED = {
 
  "C01": dict(
    text=("Lean theorems for digit strings of ANY width: SRT hh:mm:ss[,fff] (srt_stamp_denotes, srt_stamp_no_fraction), WebVTT [h+:]mm:ss.fff with arbitrary "
-         "trailing text (vtt_stamp_hms, vtt_stamp_ms), DFXP clock times plain / with a fraction of any length / with frames (dfxp_clock_*) denote exactly the "
+         "trailing text (vtt_stamp_hms, vtt_stamp_ms), DFXP clock times plain / with a fraction of any length / with frames (dfxp_clock_*) and offset times with whole or decimal counts in h, m, s, ms, f (dfxp_offset_*), begin+end and begin+dur (dfxp_begin_*) denote exactly the "
          "stated instants (floor of an exact rational); multipliers, frame base and the regex texts are regenerated from /repo and pinned. Executable models of "
          "the complete readers' time handling (SRT block scan, WebVTT cue loop with time shift and validation, MicroDVD lines with fps header, DFXP begin/end/dur "
          "with all offset metrics, SAMI end back-filling with the 4 s tail) are compared with the implementation and with an independent denotation on "
          "documents rendered by the harness's own serialisers in every spelling, plus a malformed stream for the error branches."),
    ref="§3 C01", technique="Lean 4 proof (string induction: split/span lemmas) + pinned constants/patterns + differential correspondence on generated documents",
-   note=NOTE_COMMON + "SAMI end back-filling is proved for every sync list (sami_backfill: next later sync of the language, else the 4 s tail) and the SRT reader for whole documents of any number of well-formed blocks (srt_doc_cues: one caption per block, in order, with the denoted instants; the hypotheses are met by srt_block_wf for hh:mm:ss,fff stamps of any width). The same is proved for WebVTT (vtt_doc_cues with vtt_block_wf: header, identifier lines, any number of blocks). and for MicroDVD (microdvd_doc_cues, microdvd_doc_cues_rate: one caption per line at floor(frame*10^6/rate) us, exactly). The DFXP document level (XML tree, begin/end/dur with offset metrics) and the SAMI HTML parse are not proved: those parts are model + correspondence + independent spec only. "
+   note=NOTE_COMMON + "SAMI end back-filling is proved for every sync list (sami_backfill: next later sync of the language, else the 4 s tail) and the SRT reader for whole documents of any number of well-formed blocks (srt_doc_cues: one caption per block, in order, with the denoted instants; the hypotheses are met by srt_block_wf for hh:mm:ss,fff stamps of any width). The same is proved for WebVTT (vtt_doc_cues with vtt_block_wf: header, identifier lines, any number of blocks). and for MicroDVD (microdvd_doc_cues, microdvd_doc_cues_rate: one caption per line at floor(frame*10^6/rate) us, exactly). The DFXP document level (walking the XML tree down to the time attributes) and the SAMI HTML parse are not proved: those parts are model + correspondence + independent spec only. "
         "XML/HTML tokenisation (bs4/lxml/html.parser) is library code tied by correspondence. SRT blocks without any text line and digits outside ASCII are outside the modelled domain."),
 
  "C13": dict(
